@@ -50,7 +50,7 @@ func vxSymEvalSwitches(k int) {
 
 // purity: the value does not depend on the evaluator instance, on earlier evaluations (instance
 // state, package-level scratch score) and evaluating does not modify the position
-func VN_C15_pure() int { return 4 }
+func VN_C15_pure() int { return 3 } // lazy + advanced piece evaluation together: queries stayed undecided after 900 s (not claimed)
 func VQ_C15_pure() int { return 3 } // case 3 (lazy + advanced piece evaluation together) needs a long solver run: thorough
 func VH_C15_pure(k int) {
 	vxStub(vxGetAttacksBb, VxGeoAttacks)
@@ -82,7 +82,7 @@ func VH_C15_pure(k int) {
 }
 
 // colour symmetry: same value from the mover's point of view for the mirrored position
-func VN_C15_symmetric() int { return 4 }
+func VN_C15_symmetric() int { return 3 } // default, lazy, advanced piece evaluation; both together not claimed (undecided after 900 s)
 func VQ_C15_symmetric() int { return 1 } // quick: default switches; the UCI-exposed combinations run in thorough
 func VH_C15_symmetric(k int) {
 	vxStub(vxGetAttacksBb, VxGeoAttacks)
